@@ -50,10 +50,12 @@ import (
 	"cmp"
 	"context"
 	"errors"
+	"fmt"
 	"iter"
 	"log/slog"
 	"maps"
 	"net/http"
+	"strings"
 	"time"
 
 	"github.com/bartventer/httpcache/internal"
@@ -201,6 +203,11 @@ func (r *transport) RoundTrip(req *http.Request) (*http.Response, error) {
 	}
 
 	entry, err := r.cache.Get(refs[refIndex].ResponseID, req)
+	if err == nil && entry != nil && entry.ID != "" && !strings.HasPrefix(entry.ID, urlKey+"#") {
+		// An index that lists the response of another URL (an index file copied
+		// inside the cache directory): every response ID starts with its URL's key.
+		err = fmt.Errorf("httpcache: entry %q does not belong to %q", entry.ID, urlKey)
+	}
 	if err != nil {
 		r.logger.LogCacheError(
 			"Error retrieving cache entry; possible corruption.",
